@@ -4,6 +4,7 @@ outside world (DESIGN.md section 4).  No source change in /repo is needed.
 `Env` builds one simulated world (tape, clock, bus, optional kernel) and
 installs / removes the patches.  Use as a context manager around one run.
 """
+import gc
 import logging
 import sys
 
@@ -108,7 +109,7 @@ class Env:
     """one simulated world with the ebpfcat seams installed"""
 
     def __init__(self, tape, *, faults=None, with_kernel=False, possible_cpus=4,
-                 online_cpus=None, keep_events=0, ifname="sim0", stall_limit=20000,
+                 online_cpus=None, keep_events=0, ifname="sim0", stall_limit=6000,
                  collide=None, monitor=None):
         self.tape = tape
         self.world = World(tape, keep_events)
@@ -221,4 +222,21 @@ class Env:
     def run(self, main, name="p0"):
         """run coroutine function main(loop) on a fresh loop; returns its result"""
         loop = self.new_loop(name)
-        return loop.run_coro(main(loop))
+        was_enabled = gc.isenabled()
+        gc.disable()        # collection times must not depend on the host process
+        try:
+            return loop.run_coro(main(loop))
+        finally:
+            gc.collect()    # deliver every "never retrieved" report now
+            if was_enabled:
+                gc.enable()
+
+    def loop_exceptions(self):
+        """(message, exception type name, text) seen by the loop exception handlers,
+        order-independent"""
+        out = []
+        for loop in self.loops:
+            for m, x in loop.exceptions:
+                out.append((m, type(x).__name__ if x is not None else None,
+                            str(x) if x is not None else None))
+        return sorted(out, key=repr)
